@@ -192,13 +192,21 @@ JvecF(r, f) ==
             EProv(r1, c[2])>>
 
 JtvecF(r, f) ==
-  IF r.w = None \/ r.res = None THEN <<r, f, "error", NoGrad>>   \* no weights/residual
-  ELSE LET r0 == [r EXCEPT !.res = Vec, !.grad = NoGrad, !.bf = None]
-           g == GradientF(r0, f)
-       IN IF "JtvecLeavesState" \in Deviations THEN g
-          ELSE \* residual and gradient cache restored, bfields dropped
-               <<[g[1] EXCEPT !.res = r.res, !.grad = r.grad, !.bf = None],
-                 g[2], g[3], g[4]>>
+  \* jtvec evaluates the misfit first (residual, weights; fix in /repo);
+  \* deviation JtvecNeedsMisfit: the code before - an error on a simulation
+  \* whose misfit had not been asked for
+  IF "JtvecNeedsMisfit" \notin Deviations /\ ~MisfitOK(r, f)
+  THEN <<r, f, "error", NoGrad>>
+  ELSE
+  LET c == IF "JtvecNeedsMisfit" \in Deviations THEN <<r, f>> ELSE MisfitF(r, f)
+      r1 == c[1]
+  IN IF r1.w = None \/ r1.res = None THEN <<r1, c[2], "error", NoGrad>>
+     ELSE LET r0 == [r1 EXCEPT !.res = Vec, !.grad = NoGrad, !.bf = None]
+              g == GradientF(r0, c[2])
+          IN IF "JtvecLeavesState" \in Deviations THEN g
+             ELSE \* residual and gradient cache restored, bfields dropped
+                  <<[g[1] EXCEPT !.res = r1.res, !.grad = r1.grad, !.bf = None],
+                    g[2], g[3], g[4]>>
 
 CleanF(r, f, what) ==
   LET r1 == IF what \in {"computed", "keepresults", "all"}
@@ -405,7 +413,7 @@ CopyIndependent ==
 (* (in memory, 3-D; file mode: unless the hand-over files were removed by   *)
 (* another object, the known finding)                                       *)
 SensAvailable ==
-  (~FileMode /\ ~Layered /\ last.op \in {"gradient", "jvec"}) => last.kind = "value"
+  (~FileMode /\ ~Layered /\ last.op \in {"gradient", "jvec", "jtvec"}) => last.kind = "value"
 
 TolRestored ==
   /\ (last.op \in {"copy", "file"}) => (S[1].tol = "fwd" /\ S[2].tol = "fwd")
